@@ -18,7 +18,7 @@ Not decided: channel FIFO semantics, row order inside a page, fault interleaving
 """
 from ..inline import inline_view
 from ..mir import AnchorLost
-from ..util import bool_edges, dj_of, df_of, fn_short, in_set, backward_slice, operand_path, path_last, switch_on, switch_edges, field_writers
+from ..util import truth_edges, bool_edges, dj_of, df_of, fn_short, in_set, backward_slice, operand_path, path_last, switch_on, switch_edges, field_writers
 from .c20 import slice_fields
 
 PG = "scylla::client::pager::"
@@ -161,9 +161,7 @@ def producer(r, facts, pat, fetch_name, tag, more_edge):
     ie = [c for c in b.calls_to("Result::<T, E>::is_err", "Result::<T, E>::is_ok") if b.dominates(S.bb, c.bb)]
     good = False
     for c in ie:
-        for sw in switch_on(b, df, ("call", c.bb)):
-            edges, other = switch_edges(b, sw)
-            tt, ff = bool_edges(b, sw)
+        for sw, tt, ff in truth_edges(b, df, ("call", c.bb)):
             fail_tg = tt if c.name.endswith("is_err") else ff
             if fail_tg is not None and F.bb not in b.reachable_from(fail_tg):
                 good = True
